@@ -1,4 +1,4 @@
-HOOK_COMMITS = ["4e6fe67"]
+HOOK_COMMITS = ["4e6fe67", "2b7356b"]
 NOT_YET = {}
 META = {
     "C18": {
